@@ -418,4 +418,56 @@ example : ghz3.isGood = true := by decide
 example : (match Solver.solve ghz3 with | .ok s => s.t.sameGroup (STab.zero (3 + s.ne)) | .error _ => false) = true := by
   decide +kernel
 
+theorem ghz3_indep : ghz3.LinIndep :=
+  STab.heightFuncList_ok_indep ghz3 [1, 1, 0] (by decide +kernel)
+
+theorem ghz3_notProd (p : Nat) (hp : p < ghz3.n) : ghz3.NotProd p := by
+  intro a ha hs
+  obtain ⟨S, hS⟩ := Solver.spn_combo ghz3 a ha
+  have hn : ghz3.n = 3 := rfl
+  rw [hn] at hS hs hp
+  have h0 := hS 0 (by omega)
+  have h1 := hS 1 (by omega)
+  have h2 := hS 2 (by omega)
+  simp only [STab.comboX, STab.comboZ, parityTo, ghz3] at h0 h1 h2
+  have : p = 0 ∨ p = 1 ∨ p = 2 := by omega
+  rcases this with e | e | e <;> subst e
+  · have a1 := hs 1 (by omega) (by omega)
+    have a2 := hs 2 (by omega) (by omega)
+    revert h0 h1 h2
+    rw [a1.1, a1.2, a2.1, a2.2]
+    cases S 0 <;> cases S 1 <;> cases S 2 <;> simp
+  · have a1 := hs 0 (by omega) (by omega)
+    have a2 := hs 2 (by omega) (by omega)
+    revert h0 h1 h2
+    rw [a1.1, a1.2, a2.1, a2.2]
+    cases S 0 <;> cases S 1 <;> cases S 2 <;> simp
+  · have a1 := hs 0 (by omega) (by omega)
+    have a2 := hs 1 (by omega) (by omega)
+    revert h0 h1 h2
+    rw [a1.1, a1.2, a2.1, a2.2]
+    cases S 0 <;> cases S 1 <;> cases S 2 <;> simp
+
+/-- all hypotheses of `solver_complete_stabilizer` (other than `hinv`) are met by the GHZ state, which is not a graph-state tableau -/
+example (hinv : InverseCircuitComplete) : ∃ s, Solver.solve ghz3 = .ok s ∧ SpanEq s.t (STab.zero (ghz3.n + s.ne)) ∧
+    s.t.sameGroup (STab.zero (ghz3.n + s.ne)) = true :=
+  solver_complete_stabilizer hinv ghz3 (isGood_good ghz3 (by decide)) ghz3_indep (by decide) ghz3_notProd
+
+/-- the loop invariant is met at the start of the loop for the 3-photon linear cluster with its one emitter (hypothesis of
+    `round_returns` / `photon_loop_returns`) -/
+example : LoopInvariant 3 1 3 { np := 3, ne := 1, t := Solver.withEmitters (graphSTab 3 lin3adj) 1, circ := [] } :=
+  loop_invariant_initially (graphSTab 3 lin3adj) (Solver.graphSTab_good 3 lin3adj (by
+      intro i j; simp only [lin3adj]; cases h1 : (i == 0) <;> cases h2 : (j == 1) <;> cases h3 : (i == 1) <;> cases h4 : (j == 0) <;>
+        cases h5 : (j == 2) <;> cases h6 : (i == 2) <;> rfl))
+    (graph_indep 3 lin3adj) 1 (by decide +kernel)
+    (fun p hp => Solver.graph_notProd 3 lin3adj (by
+        intro i; simp only [lin3adj]
+        cases h1 : (i == 0) <;> cases h2 : (i == 1) <;> cases h3 : (i == 2) <;> simp_all) p hp (by
+        have hp' : p < 3 := hp
+        have : p = 0 ∨ p = 1 ∨ p = 2 := by omega
+        rcases this with e | e | e <;> subst e
+        · exact ⟨1, by decide, by decide⟩
+        · exact ⟨0, by decide, by decide⟩
+        · exact ⟨1, by decide, by decide⟩))
+
 end Graphiq.C02
